@@ -327,6 +327,38 @@ def r09d(repo: Repo, chk: Check):
     def judge_prec(key, prec_desc, ok, where):
         chk.judge("R09.d", key, ok, f"float format carries fewer than 16 significant digits ({prec_desc})", {"precision": prec_desc}, where)
 
+    def judge_computed(h, node):
+        """precision given by an expression: accepted is C +/- int(log10(|v|)) with C >= 16 under the guard |v| < 1"""
+        ids = [n.id for n in cfg.nodes_of(node)]
+        expr = h
+        if isinstance(h, ast.Name) and ids:
+            ds = rd.at(ids[0], h.id)
+            if len(ds) == 1 and ds[0].kind == "assign":
+                expr = ds[0].value
+                ids = [ds[0].node]
+        ok = False
+        desc = norm(expr)
+        if isinstance(expr, ast.BinOp) and isinstance(expr.op, (ast.Add, ast.Sub)):
+            left, right = expr.left, expr.right
+            neg_log = None
+            const = None
+            if isinstance(expr.op, ast.Sub) and isinstance(left, ast.Constant) and isinstance(left.value, int):
+                const, neg_log = left.value, right          # C - int(log10(..))
+            elif isinstance(expr.op, ast.Add):
+                for c_, o in ((left, right), (right, left)):
+                    if isinstance(c_, ast.Constant) and isinstance(c_.value, int) and isinstance(o, ast.UnaryOp) and isinstance(o.op, ast.USub):
+                        const, neg_log = c_.value, o.operand   # C + -int(log10(..))
+            if const is not None and const >= 16 and "log10" in norm(neg_log) and norm(neg_log).startswith("int("):
+                # guard: some atom  X >= c  is False with c <= 1  (value below 1 => log10 < 0)
+                for test, pol in cfg.guards(ids[0]) if ids else []:
+                    if isinstance(test, ast.Compare) and len(test.ops) == 1 and isinstance(test.ops[0], (ast.GtE, ast.Gt)) and not pol \
+                            and isinstance(test.comparators[0], ast.Constant) and isinstance(test.comparators[0].value, (int, float)) \
+                            and test.comparators[0].value <= 1:
+                        ok = True
+        elif isinstance(expr, ast.Constant) and isinstance(expr.value, int):
+            ok = expr.value >= 16 + 1
+        judge_prec("types:to_string:computed precision", desc, ok, f"{m.path}:{node.lineno}")
+
     for node in ast.walk(fn):
         # f"{x:.Ng}"
         if isinstance(node, ast.FormattedValue) and node.format_spec is not None:
@@ -354,41 +386,20 @@ def r09d(repo: Repo, chk: Check):
                         judge_prec(f"types:to_string:format {txt!r}", txt, p >= 16, f"{m.path}:{node.lineno}")
                 else:
                     raise AnalysisError(f"to_string: float format {txt!r} not recognised")
+            elif len(spec.values) == 3 and isinstance(spec.values[0], ast.Constant) and spec.values[0].value == "." and isinstance(spec.values[1], ast.FormattedValue) \
+                    and isinstance(spec.values[2], ast.Constant) and spec.values[2].value == "f":
+                # f"{x:.{ndigits}f}"
+                found += 1
+                judge_computed(spec.values[1].value, node)
+            else:
+                raise AnalysisError(f"to_string: float format {norm(spec)} not recognised")
         # format_str = f"{{value:.{ndigits}f}}"
         if isinstance(node, ast.JoinedStr):
             consts = "".join(v.value for v in node.values if isinstance(v, ast.Constant))
             holes = [v for v in node.values if isinstance(v, ast.FormattedValue)]
             if "{" in consts and ":." in consts and holes and consts.rstrip("}").endswith("f"):
                 found += 1
-                h = holes[0].value
-                # resolve the precision expression
-                st = node
-                ids = [n.id for n in cfg.nodes_of(node)]
-                expr = h
-                if isinstance(h, ast.Name) and ids:
-                    ds = rd.at(ids[0], h.id)
-                    if len(ds) == 1 and ds[0].kind == "assign":
-                        expr = ds[0].value
-                        ids = [ds[0].node]
-                ok = False
-                desc = norm(expr)
-                # accepted: C + (-int(math.log10(abs(v)))) with C >= 16 under guard |v| < 1
-                if isinstance(expr, ast.BinOp) and isinstance(expr.op, ast.Add):
-                    parts = [expr.left, expr.right]
-                    consts_ = [p for p in parts if isinstance(p, ast.Constant) and isinstance(p.value, int)]
-                    others = [p for p in parts if p not in consts_]
-                    if len(consts_) == 1 and len(others) == 1 and consts_[0].value >= 16:
-                        o = others[0]
-                        if isinstance(o, ast.UnaryOp) and isinstance(o.op, ast.USub) and "log10" in norm(o.operand) and norm(o.operand).startswith("int("):
-                            # guard: some atom  X >= c  is False with c <= 1  (value below 1 => log10 < 0)
-                            for test, pol in cfg.guards(ids[0]) if ids else []:
-                                if isinstance(test, ast.Compare) and len(test.ops) == 1 and isinstance(test.ops[0], (ast.GtE, ast.Gt)) and not pol \
-                                        and isinstance(test.comparators[0], ast.Constant) and isinstance(test.comparators[0].value, (int, float)) \
-                                        and test.comparators[0].value <= 1:
-                                    ok = True
-                elif isinstance(expr, ast.Constant) and isinstance(expr.value, int):
-                    ok = expr.value >= 16 + 1
-                judge_prec(f"types:to_string:computed precision", desc, ok, f"{m.path}:{node.lineno}")
+                judge_computed(holes[0].value, node)
     if found < 2:
         raise AnalysisError(f"to_string: expected two float formats, recognised {found}")
 
